@@ -38,6 +38,28 @@ def handle_words_probe(ctx_, work, rng, nb):
     return seen, fails[:12]
 
 
+def same_bytes_probe(ctx_, work, rng, nb):
+    """'All backends produce and accept the same bytes for the same call': the data nine-pairing program
+    (lib/l2data.py: primitives of all widths, buffers, arrays, 8/16/17/24-byte structs, struct arrays) with
+    the wire spy of rt/obj/main.c printing op, counts word, input bytes, output capacities and returned
+    output bytes of every invocation; the nine pairings must print the same wire lines (the C stub's
+    bytes are compared with the reference encoder by the batches above)."""
+    import l2data
+    fails, nlines = [], 0
+    for b in range(nb):
+        ms = l2data.gen_methods(rng, 9)
+        r = l2data.build_and_run(ctx_["idlc"], os.path.join(work, "wiredata%d" % b), ms, chain=(b % 2 == 1))
+        idl = l2data.render_idl(ms, b % 2 == 1)
+        if r.get("stage") != "run" or r.get("rc") != 0:
+            fails.append({"property": ctx_["prop"], "idl": idl, "what": "the nine-pairing data program does not build or aborts (%s): %s" % (r.get("stage"), (r.get("err") or "")[-600:])})
+            continue
+        nlines += r["out"].count("\nwire ")
+        for pairing, line, refline in l2data.compare(r["out"], tags=("wire ", "wired "))[:6]:
+            fails.append({"property": ctx_["prop"], "idl": idl, "pairing (caller implementation)": pairing, "observed": line[:900], "expected (pairing c c)": refline[:900],
+                          "what": "pairing %s puts different bytes on the wire than the C stub / C skeleton for the same call" % pairing})
+    return nlines, fails[:12]
+
+
 def run(ctx_):
     prop, tier, seed, work = ctx_["prop"], ctx_["tier"], ctx_["seed"], ctx_["work"]
     nb = 6 if tier == "quick" else 150
@@ -140,9 +162,12 @@ def run(ctx_):
             if nbad:
                 res["failures"].append({"property": prop, "known_class": cls, "idl": text,
                                         "what": "methods of class %s: wire bytes differ from the reference encoding (%d lines)" % (cls, nbad)})
+    sb_lines, sb_fails = same_bytes_probe(ctx_, work, vlib.mkrng(seed, prop + "-samebytes"), 1 if tier == "quick" else 20)
+    res["failures"] += sb_fails
     hw_calls, hw_fails = handle_words_probe(ctx_, work, vlib.mkrng(seed, prop + "-handles"), 1 if tier == "quick" else 12)
     res["failures"] += hw_fails
     res["coverage"] = {
+        "same_bytes_probe": {"wire_lines_per_run": sb_lines, "pairings": "C, C++, Rust stubs x C, C++, Rust skeletons", "differences": len(sb_fails)},
         "handle_words_probe": {"implementation_entries_seen": hw_calls, "pairings": "C, C++, Rust stubs x C, C++, Rust skeletons", "leaks": len(hw_fails)},
         "evaluations": ncmp, "distinct_nontrivial": distinct,
         "rule": "%d generated interfaces of 12 methods; per method outside the known classes and valuation: the (op, counts, BI bytes, BO capacities) a "
